@@ -53,3 +53,8 @@ def BufOK(b: "arr", s: "seq[int]", a: "int") -> "bool":
 def DecPre(b: "arr", s: "seq[int]", a: "int") -> "bool":
     """reader state: s is the complete bit image of the byte string b, the cursor is a valid position"""
     return Rep(b, s) and a >= 0 and len(s) == 8 * arr_len(b)
+
+
+@pure
+def bytes_ok(b: "arr") -> "bool":
+    return forall(0, arr_len(b), lambda q: 0 <= arr_get(b, q) and arr_get(b, q) < 256)
